@@ -32,6 +32,29 @@ func scrutineeIsInputArg(d *ast.Decl) bool {
 	return true
 }
 
+// varsBoundByEq returns the variables that the equality gives a value to: a
+// variable on one side, when every variable of the other side is bound.
+func varsBoundByEq(eq ast.Eq, bound VarList) []ast.Variable {
+	hasValue := func(t ast.BaseTerm) bool {
+		vars := make(map[ast.Variable]bool)
+		ast.AddVars(t, vars)
+		for v := range vars {
+			if bound.Find(v) == -1 {
+				return false
+			}
+		}
+		return true
+	}
+	var res []ast.Variable
+	if v, ok := eq.Left.(ast.Variable); ok && hasValue(eq.Right) {
+		res = append(res, v)
+	}
+	if v, ok := eq.Right.(ast.Variable); ok && hasValue(eq.Left) {
+		res = append(res, v)
+	}
+	return res
+}
+
 // RewriteClause rewrites a clause using information from declarations.
 func RewriteClause(decls map[ast.PredicateSym]*ast.Decl, clause ast.Clause) ast.Clause {
 	if len(clause.Premises) == 0 {
@@ -71,9 +94,7 @@ func RewriteClause(decls map[ast.PredicateSym]*ast.Decl, clause ast.Clause) ast.
 			}
 			boundVars = boundVars.Extend(defVars)
 		case ast.Eq:
-			m := boundVars.AsMap()
-			ast.AddVars(p, m)
-			boundVars = NewVarList(m)
+			boundVars = boundVars.Extend(varsBoundByEq(p, boundVars))
 
 		case ast.NegAtom:
 			varToBind := map[ast.Variable]bool{}
